@@ -156,6 +156,11 @@ def run(ctx):
                 pass
         if i < 3:
             ctx.sample({"encode": repr(v)[:200]})
+    # equal values of different exact types, encoded one after the other in this process
+    for i in range(n_enc // 10):
+        for j, v in enumerate(gen.gen_twin_family(rng)):
+            check_encode(ctx, brine, v, "twin#%d.%d" % (i, j))
+            ctx.count("equal_values_of_different_types_in_sequence")
     for i in range(n_enc // 5):
         v = gen.gen_nonplain(rng)
         check_encode(ctx, brine, v, "nonplain#%d" % i)
